@@ -36,6 +36,7 @@ import (
 	"crypto/tls"
 	"net"
 	"runtime"
+	"sort"
 	"sync"
 	"unsafe"
 )
@@ -157,6 +158,49 @@ func VerifsimResetPools() {
 	verifsimRaceEnable()
 }
 
+// verifsimSortedKeys returns the keys of m in an order that does not change from
+// run to run for the key types that matter to a schedule: strings, integers,
+// and connections of the simulator (which know their number, also through a
+// TLS wrapper). Other keys keep the order Go happened to produce.
+func verifsimSortedKeys[K comparable, V any](m map[K]V) []K {
+	keys := make([]K, 0, len(m))
+	for k := range m {
+		keys = append(keys, k)
+	}
+	sort.SliceStable(keys, func(i, j int) bool {
+		ci, si, oki := verifsimKeyRank(any(keys[i]))
+		cj, sj, okj := verifsimKeyRank(any(keys[j]))
+		if !oki || !okj {
+			return false
+		}
+		if ci != cj {
+			return ci < cj
+		}
+		return si < sj
+	})
+	return keys
+}
+
+func verifsimKeyRank(k any) (int64, string, bool) {
+	switch v := k.(type) {
+	case string:
+		return 0, v, true
+	case int:
+		return int64(v), "", true
+	case uint16:
+		return int64(v), "", true
+	case uint8:
+		return int64(v), "", true
+	case uint32:
+		return int64(v), "", true
+	case interface{ VerifsimOrder() int }:
+		return int64(v.VerifsimOrder()), "", true
+	case interface{ NetConn() net.Conn }:
+		return verifsimKeyRank(v.NetConn())
+	}
+	return 0, "", false
+}
+
 // Socket seam (R5): where the library asks the operating system for a
 // listening socket or an outgoing connection, the simulator answers when these
 // are set. VerifsimListenSeam / VerifsimDialSeam say whether the rewriter found
@@ -257,6 +301,7 @@ func verifsimRaceReleaseMerge(p unsafe.Pointer) {}
 func main() {
 	dir := flag.String("dir", "", "scratch copy of the repository to rewrite in place")
 	flag.BoolVar(&udpSeam, "udp", true, "substitute the interface VerifsimUDPConn for *net.UDPConn")
+	flag.BoolVar(&mapOrder, "maporder", true, "iterate maps in a fixed key order (R7)")
 	flag.BoolVar(&poolSeam, "pool", true, "substitute a deterministic free list for sync.Pool")
 	flag.BoolVar(&sockSeam, "sock", true, "route listenTCP / listenUDP and the client's dial calls through the simulator's hooks")
 	flag.Parse()
@@ -270,7 +315,7 @@ func main() {
 	}
 }
 
-var udpSeam, sockSeam, poolSeam bool
+var udpSeam, sockSeam, poolSeam, mapOrder bool
 
 // R5 (textual, after printing): listenTCP / listenUDP ask the simulator first,
 // and the three places where client.go dials go through verifsimDial[TLS].
@@ -355,6 +400,7 @@ type rewriter struct {
 	info  *types.Info
 	file  string
 	sites int
+	mapN  int
 	stats map[string]int
 	done  map[ast.Node]bool
 }
@@ -492,8 +538,75 @@ func (rw *rewriter) yield(kind string, pos token.Pos) ast.Stmt {
 	return &ast.ExprStmt{X: &ast.CallExpr{Fun: ast.NewIdent("verifsimYield"), Args: []ast.Expr{rw.site(kind, pos)}}}
 }
 
+// rangeFiles: where the order of a map iteration can reach the schedule.
+var rangeFiles = map[string]bool{"server.go": true, "client.go": true, "serve_mux.go": true, "xfr.go": true, "udp.go": true, "tsig.go": true, "sig0.go": true, "acceptfunc.go": true}
+
+// R7: for k, v := range m  ->  for _, K := range verifsimSortedKeys(m) { V, ok := m[K]; if !ok { continue }; k, v := K, V; ... }
+// Go picks a new starting point for every map iteration; with side effects in
+// the body (deadlines set, connections closed - scheduling points) that choice
+// would reach the schedule. Only maps named by an identifier or a selector
+// chain are rewritten (the expression is evaluated twice).
+func (rw *rewriter) rewriteRange(r *ast.RangeStmt) {
+	if !mapOrder || !rangeFiles[rw.file] || r.Tok == token.ILLEGAL && r.Key != nil {
+		return
+	}
+	tv, ok := rw.info.Types[r.X]
+	if !ok || tv.Type == nil {
+		return
+	}
+	if _, isMap := tv.Type.Underlying().(*types.Map); !isMap {
+		return
+	}
+	for e := r.X; ; {
+		switch v := e.(type) {
+		case *ast.Ident:
+		case *ast.SelectorExpr:
+			e = v.X
+			continue
+		default:
+			return
+		}
+		break
+	}
+	rw.mapN++
+	kn, vn, okn := ast.NewIdent(fmt.Sprintf("verifsimK%d", rw.mapN)), ast.NewIdent(fmt.Sprintf("verifsimV%d", rw.mapN)), ast.NewIdent(fmt.Sprintf("verifsimOk%d", rw.mapN))
+	pre := []ast.Stmt{
+		&ast.AssignStmt{Lhs: []ast.Expr{vn, okn}, Tok: token.DEFINE, Rhs: []ast.Expr{&ast.IndexExpr{X: r.X, Index: ast.NewIdent(kn.Name)}}},
+		&ast.IfStmt{Cond: &ast.UnaryExpr{Op: token.NOT, X: ast.NewIdent(okn.Name)}, Body: &ast.BlockStmt{List: []ast.Stmt{&ast.BranchStmt{Tok: token.CONTINUE}}}},
+		&ast.AssignStmt{Lhs: []ast.Expr{ast.NewIdent("_")}, Tok: token.ASSIGN, Rhs: []ast.Expr{ast.NewIdent(vn.Name)}},
+	}
+	tok := r.Tok
+	if tok == token.ILLEGAL {
+		tok = token.DEFINE
+	}
+	bind := func(lhs ast.Expr, rhs *ast.Ident) {
+		if lhs == nil {
+			return
+		}
+		if id, ok := lhs.(*ast.Ident); ok && id.Name == "_" {
+			return
+		}
+		pre = append(pre, &ast.AssignStmt{Lhs: []ast.Expr{lhs}, Tok: tok, Rhs: []ast.Expr{ast.NewIdent(rhs.Name)}})
+		if tok == token.DEFINE {
+			if id, ok := lhs.(*ast.Ident); ok {
+				pre = append(pre, &ast.AssignStmt{Lhs: []ast.Expr{ast.NewIdent("_")}, Tok: token.ASSIGN, Rhs: []ast.Expr{ast.NewIdent(id.Name)}})
+			}
+		}
+	}
+	bind(r.Key, kn)
+	bind(r.Value, vn)
+	r.Body.List = append(pre, r.Body.List...)
+	r.X = &ast.CallExpr{Fun: ast.NewIdent("verifsimSortedKeys"), Args: []ast.Expr{r.X}}
+	r.Key, r.Value, r.Tok = ast.NewIdent("_"), kn, token.DEFINE
+	rw.sites++
+	rw.stats["maprange"]++
+}
+
 func (rw *rewriter) walkFile(f *ast.File) {
 	ast.Inspect(f, func(n ast.Node) bool {
+		if r, ok := n.(*ast.RangeStmt); ok {
+			rw.rewriteRange(r)
+		}
 		switch b := n.(type) {
 		case *ast.BlockStmt:
 			b.List = rw.rewriteList(b.List)
